@@ -15,18 +15,22 @@ CONSTANTS Addrs,      \* set of client addresses [fam |-> 4|6, o |-> octets]
           Burst,      \* tokens
           V4Mask, V6Mask,   \* as configured (0 = omitted)
           GRate, GBurst,    \* global bucket (GBurst = 0: no global limit)
-          Costs, MaxT, MaxArrivals
+          Costs, MaxT, MaxArrivals,
+          Ttl,        \* idle time after which gc() may forget a bucket (0: no collection in this instance)
+          GcRefilled  \* TRUE: gc forgets a bucket only when it has refilled (forgetting is then invisible);
+                      \* FALSE: it forgets every idle bucket (sensitivity: a burst larger than Rate x Ttl comes back)
 
 VARIABLES bucket,   \* key -> [tokens (milli), last]   (absent keys are full)
           glob,     \* [tokens, last]
           now,
+          seen,     \* key -> time of the last call for that key (e.lastSeen)
           adm,      \* history: sequence of admitted [k, t, n]
           arr,      \* history: every arrival <<addr, n, t>> (stimulus for replay)
           narr
 
-vars == <<bucket, glob, now, adm, arr, narr>>
-view == <<bucket, glob, now, narr>>
-viewAdm == <<bucket, glob, now, adm, narr>>
+vars == <<bucket, glob, now, seen, adm, arr, narr>>
+view == <<bucket, glob, now, seen, narr>>
+viewAdm == <<bucket, glob, now, seen, adm, narr>>
 
 -----------------------------------------------------------------------------
 Key(a) == KeyM(a, V4Mask, V6Mask)
@@ -37,7 +41,7 @@ BucketOf(k) == IF k \in DOMAIN bucket THEN bucket[k] ELSE Full(Burst, now)
 GlobalOk(t, n) == GBurst = 0 \/ Allows(glob, GRate, GBurst, t, n)
 Decision(a, t, n) == GlobalOk(t, n) /\ Allows(BucketOf(Key(a)), Rate, Burst, t, n)
 
-Init == /\ bucket = <<>> /\ glob = Full(GBurst, 0) /\ now = 0 /\ adm = <<>> /\ arr = <<>> /\ narr = 0
+Init == /\ bucket = <<>> /\ seen = <<>> /\ glob = Full(GBurst, 0) /\ now = 0 /\ adm = <<>> /\ arr = <<>> /\ narr = 0
 
 Arrive(a, n) ==
     /\ narr < MaxArrivals
@@ -48,13 +52,21 @@ Arrive(a, n) ==
        /\ IF GlobalOk(now, n)
           THEN /\ bucket' = [x \in DOMAIN bucket \cup {k} |->
                                IF x = k THEN After(BucketOf(k), Rate, Burst, now, n) ELSE bucket[x]]
+               /\ seen' = [x \in DOMAIN seen \cup {k} |-> IF x = k THEN now ELSE seen[x]]
                /\ adm' = IF Decision(a, now, n) THEN Append(adm, [k |-> k, t |-> now, n |-> n]) ELSE adm
-          ELSE UNCHANGED <<bucket, adm>>
+          ELSE UNCHANGED <<bucket, seen, adm>>
     /\ UNCHANGED now
 
-Tick == now < MaxT /\ now' = now + 1 /\ UNCHANGED <<bucket, glob, adm, arr, narr>>
+Tick == now < MaxT /\ now' = now + 1 /\ UNCHANGED <<bucket, glob, seen, adm, arr, narr>>
 
-Next == Tick \/ \E a \in Addrs, n \in Costs : Arrive(a, n)
+\* ClientLimiter.gc: one bucket that was not used for more than Ttl is forgotten (an absent key is a full bucket)
+GC(k) == /\ Ttl > 0 /\ k \in DOMAIN bucket /\ now - seen[k] > Ttl
+         /\ GcRefilled => Refilled(bucket[k], Rate, Burst, now) = Burst * 1000
+         /\ bucket' = [x \in DOMAIN bucket \ {k} |-> bucket[x]]
+         /\ seen' = [x \in DOMAIN seen \ {k} |-> seen[x]]
+         /\ UNCHANGED <<glob, now, adm, arr, narr>>
+
+Next == Tick \/ (\E a \in Addrs, n \in Costs : Arrive(a, n)) \/ (\E k \in DOMAIN bucket : GC(k))
 Spec == Init /\ [][Next]_vars
 
 -----------------------------------------------------------------------------
@@ -64,6 +76,8 @@ Inv_C15_Budget == BudgetOfP(adm, Rate, Burst)
 \* a client's bucket is touched only by arrivals of its own subnet
 C15_Isolation == [][\A a \in Addrs : \A n \in Costs :
                       Arrive(a, n) => \A k \in DOMAIN bucket : k # Key(a) => bucket'[k] = bucket[k]]_vars
+\* forgetting a bucket never changes a later decision: a forgotten bucket was full
+C15_GcInvisible == [][\A k \in DOMAIN bucket : GC(k) => Refilled(bucket[k], Rate, Burst, now) = Burst * 1000]_vars
 
 \* a subnet within its own budget is never refused by the client limiter
 \* (stated on the model: the decision for `a` is a function of the global bucket and bucket[Key(a)] only)
